@@ -241,4 +241,18 @@ PreludeOK ==
   /\ Sigs["iwrap"] = Sig(1, <<SV(1)>>, Nm("IBox", <<SV(1)>>))
 
 PrincipalOfAst(f) == Principal(Problem(Sigs, f))
+
+\* f.deps (optional): the abstract syntax of the earlier generated functions f calls (each in turn with its own deps): their type schemes are
+\* INFERRED and generalised here, and every call takes a fresh instance - a function that calls an ill-typed one is ill-typed
+RECURSIVE DepSigs(_), DepsOK(_)
+DepSigs(f) == IF "deps" \notin DOMAIN f THEN Sigs
+              ELSE LET RECURSIVE Add(_, _)
+                       Add(sg, i) == IF i > Len(f.deps) THEN sg
+                                     ELSE Add(sg @@ (f.deps[i].ast.name :> Scheme(DepSigs(f.deps[i]), f.deps[i].ast)), i + 1)
+                   IN Add(Sigs, 1)
+\* (a callee whose result mentions a type variable that no parameter mentions cannot be called from Go without explicit type arguments: outside the profile)
+DepsOK(f) == "deps" \notin DOMAIN f \/ \A i \in 1..Len(f.deps) :
+                 /\ DepsOK(f.deps[i])
+                 /\ LET p == Principal(Problem(DepSigs(f.deps[i]), f.deps[i].ast)) IN p.ok /\ p.resonly = 0
+PrincipalWithDeps(f) == LET p0 == Principal(Problem(DepSigs(f), f.ast)) IN [p0 EXCEPT !.ok = p0.ok /\ DepsOK(f)]
 =============================================================================
